@@ -331,7 +331,8 @@ fn sub_case(
 
     // (3) red-zone lookups whose index space sits just below usize::MAX
     if carriers & 4 != 0 && a.len() <= 1000 && b.len() <= 1000 {
-        let base_o = usize::MAX - 2000;
+        // the old buffer's index space ENDS exactly at usize::MAX (largest valid index MAX - 1)
+        let base_o = usize::MAX - a.len();
         let base_n = usize::MAX - 1500;
         let sa = StrictLookup { data: a, allowed: base_o + or.start..base_o + or.end, base: base_o };
         let sb = StrictLookup { data: b, allowed: base_n + nr.start..base_n + nr.end, base: base_n };
